@@ -83,8 +83,16 @@ def snapshot():
                     continue
                 d[k] = id(v)
             mods[name] = d
+    import threading
+    import warnings
+    import signal
+    interp = {'recursionlimit': sys.getrecursionlimit(), 'path': tuple(sys.path), 'meta_path': len(sys.meta_path), 'path_hooks': len(sys.path_hooks),
+              'warning_filters': len(warnings.filters), 'threads': threading.active_count(), 'switchinterval': sys.getswitchinterval(),
+              'displayhook': id(sys.displayhook), 'excepthook': id(sys.excepthook), 'stdin': id(sys.stdin), 'stderr': id(sys.stderr),
+              'sigint': id(signal.getsignal(signal.SIGINT)), 'umask_probe': None, 'trace': id(sys.gettrace()), 'profile': id(sys.getprofile()),
+              'dont_write_bytecode': sys.dont_write_bytecode, 'int_max_str_digits': sys.get_int_max_str_digits() if hasattr(sys, 'get_int_max_str_digits') else None}
     return {'builtins': {k: id(v) for k, v in vars(builtins).items()}, 'modules': set(sys.modules), 'environ': dict(os.environ), 'cwd': os.getcwd(),
-            'hszinc': mods}
+            'hszinc': mods, 'interp': interp}
 
 
 def diff(a, b):
@@ -97,6 +105,9 @@ def diff(a, b):
         out.append('os.environ')
     if a['cwd'] != b['cwd']:
         out.append('cwd')
+    for k in a.get('interp', {}):
+        if a['interp'][k] != b.get('interp', {}).get(k):
+            out.append('interpreter state: ' + k)
     for name in set(a['hszinc']) | set(b['hszinc']):
         da, db = a['hszinc'].get(name, {}), b['hszinc'].get(name, {})
         if da != db:
@@ -168,7 +179,8 @@ def cases():
     return out
 
 
-INVALID = ['a == 1 ; import os', 'import os', 'a; b', 'a == 1+1', 'a == (1)', 'a == [x for x in y]', 'lambda: 0', 'a == "x" "y"', 'a == b',
+INVALID = ['(' * 80 + 'a', '(' * 70 + 'a' + ')' * 69, 'a == "' + '(' * 90 + '" b', '(a) ' * 80 + 'b', 'a and ' + '(' * 60, ')' * 100,
+           'a == 1 ; import os', 'import os', 'a; b', 'a == 1+1', 'a == (1)', 'a == [x for x in y]', 'lambda: 0', 'a == "x" "y"', 'a == b',
            'a == hszcanary', 'a == hszcanary()', 'a == hszcanary(1)', 'a == hszcanary(x)', 'a == hszcanary("x").y', 'a == hszcanary("x")()', 'a == "x" + "y"',
            'a == -', 'a ==', '== 1', 'a and', 'and a', '()', '(a', 'a)', 'a->', '->a', 'a == 1 or', 'a === 1', 'a = 1', 'a <> 1',
            'a == {k:hszcanary}', 'a == [hszcanary(1)]', '__import__', '_a', 'A', '1', '"x"', 'a == ${x}', 'a == `x', 'a == "x', 'a\nb', 'a == 1\nimport os',
@@ -323,9 +335,13 @@ def invalid_task(texts):
     g = hs.Grid(version='3.0', columns=[('id', []), ('a', [])])
     g.append({'id': 'r', 'a': 1.0})
     for text in texts:
+        snap0 = snapshot()
         out, ev, flag, w = run_filter(hs, g, text)
+        d = diff(snap0, snapshot())
         st.count('executions')
         case = {'kind': 'invalid', 'filter': text}
+        if d:
+            st.fail('global-state-changed', {'position': 'invalid-filter', 'what': d[0][:60]}, case, {'filter': text[:200], 'diff': d[:4]})
         st.case(('invalid', text), outcome=(out[0], out[1] if out[0] == 'raise' else 'ok'))
         if flag:
             st.fail('payload-executed-canary-called', {'position': 'invalid-filter'}, case, {'filter': text})
